@@ -621,7 +621,7 @@ func (e *Engine) ApplyContract(st *State, con *contract.Func, recv *Val, args []
 		if err != nil {
 			return nil, fmt.Errorf("%s:%d: %v", en.File, en.Line, err)
 		}
-		st.Assume(v.T)
+		st.AssumeFact(v.T)
 	}
 	return out, nil
 }
@@ -912,6 +912,8 @@ func (e *Engine) sortSlice(st *State, call *ast.CallExpr, lit *ast.FuncLit) erro
 		return err
 	}
 	var disj []smt.T
+	var extra []smt.T
+	seenFact := map[string]bool{}
 	for _, o := range outs {
 		if o.kind != oReturn {
 			continue
@@ -920,10 +922,20 @@ func (e *Engine) sortSlice(st *State, call *ast.CallExpr, lit *ast.FuncLit) erro
 		if !ok {
 			return e.errf(call.Pos(), "sort.Slice: less function without result")
 		}
-		disj = append(disj, smt.And(append(append([]smt.T(nil), o.st.pc[base:]...), v.T)...))
+		var guards []smt.T
+		for _, c := range o.st.pc[base:] {
+			if o.st.facts[c.S] {
+				if !seenFact[c.S] {
+					seenFact[c.S] = true
+					extra = append(extra, c)
+				}
+				continue
+			}
+			guards = append(guards, c)
+		}
+		disj = append(disj, smt.And(append(guards, v.T)...))
 	}
 	lessV := Val{smt.Or(disj...), types.Typ[types.Bool]}
-	var extra []smt.T
 	inst := func(s, i, j smt.T) smt.T {
 		r := strings.NewReplacer(S.S, s.S, I.S, i.S, J.S, j.S)
 		return smt.T{S: r.Replace(lessV.T.S), Sort: smt.Bool}
@@ -940,6 +952,7 @@ func (e *Engine) sortSlice(st *State, call *ast.CallExpr, lit *ast.FuncLit) erro
 	K := e.Fresh("sortK", smt.Int)
 	chk := sub.Clone()
 	chk.Assume(smt.And(smt.Le(smt.IntLit(0), K), smt.Lt(K, n)))
+	chk.Assume(instFacts(S, I, J))
 	chk.Assume(instFacts(S, I, I))
 	chk.Assume(instFacts(S, J, I))
 	chk.Assume(instFacts(S, J, K))
